@@ -17,18 +17,18 @@ struct Profile {
 };
 // order: INIT SELECT LIST GET_NAME GET_DIM PRINTID SET GET SET_UNKNOWN GET_UNKNOWN INIT_PARAM PURGE SANITY DISPLAY_PARAM
 //        DISPLAY_VEC SET_VEC GET_VEC GET_VEC_UNKNOWN SET_VEC_UNKNOWN EVAL EVAL_SUP EVAL_UNSUP PASS_FUNC MIRROR TWIN AUDIT
-//        SWEEP SELECT_UNKNOWN INIT_UNKNOWN PREINIT_CALL EXIT_HERE WALK_UNSUP
+//        SWEEP SELECT_UNKNOWN INIT_UNKNOWN PREINIT_CALL EXIT_HERE WALK_UNSUP FRESH
 static const Profile g_profiles[] = {
-    {"GEN", {60, 80, 15, 15, 5, 2, 80, 50, 10, 10, 15, 10, 15, 5, 3, 25, 15, 5, 5, 20, 120, 40, 5, 30, 15, 15, 10, 8, 8, 3, 3, 2}, 20, 110, 40, 0, 0, 15},
-    {"C10", {40, 80, 5, 5, 2, 0, 90, 30, 3, 3, 15, 5, 5, 2, 1, 40, 10, 1, 1, 10, 320, 10, 15, 10, 60, 15, 20, 2, 2, 1, 1, 1}, 30, 120, 20, 0, 0, 5},
-    {"C11", {30, 50, 5, 5, 2, 0, 160, 100, 40, 40, 50, 40, 60, 15, 10, 70, 50, 20, 20, 10, 80, 10, 3, 20, 30, 20, 5, 3, 3, 1, 1, 1}, 30, 120, 20, 1, 0, 5},
-    {"C12", {90, 150, 40, 40, 15, 1, 90, 80, 5, 5, 10, 8, 5, 3, 2, 20, 10, 2, 2, 10, 80, 10, 15, 10, 25, 40, 5, 10, 10, 3, 2, 1}, 20, 120, 30, 0, 0, 10},
-    {"C13", {150, 30, 10, 30, 5, 2, 10, 10, 2, 2, 3, 2, 3, 1, 1, 3, 2, 1, 1, 5, 20, 5, 1, 5, 2, 10, 5, 5, 80, 2, 1, 1}, 12, 60, 90, 1, 0, 20},
-    {"C14", {120, 30, 5, 20, 20, 8, 10, 10, 2, 2, 10, 2, 10, 5, 3, 3, 2, 1, 1, 10, 60, 10, 1, 5, 5, 5, 60, 2, 5, 1, 1, 3}, 12, 70, 30, 1, 0, 5},
-    {"C15", {40, 50, 5, 5, 2, 0, 30, 20, 5, 5, 5, 5, 3, 1, 1, 5, 3, 2, 2, 60, 60, 250, 3, 20, 3, 5, 5, 3, 3, 1, 1, 25}, 20, 100, 20, 1, 0, 5},
-    {"C16", {60, 60, 15, 10, 5, 1, 40, 30, 10, 10, 10, 10, 10, 5, 3, 10, 5, 5, 5, 10, 30, 10, 5, 5, 3, 20, 2, 60, 60, 30, 5, 1}, 15, 90, 30, 0, 0, 60},
-    {"C17", {40, 60, 10, 20, 10, 0, 50, 40, 5, 5, 15, 10, 20, 5, 5, 30, 25, 10, 5, 20, 80, 30, 3, 300, 5, 10, 10, 5, 5, 2, 1, 3}, 20, 110, 20, 0, 1, 5},
-    {"C19", {150, 40, 5, 5, 2, 3, 30, 20, 10, 10, 10, 5, 5, 3, 3, 50, 30, 10, 10, 20, 60, 20, 5, 30, 15, 10, 10, 5, 10, 2, 25, 2}, 15, 100, 40, 1, 0, 10},
+    {"GEN", {60, 80, 15, 15, 5, 2, 80, 50, 10, 10, 15, 10, 15, 5, 3, 25, 15, 5, 5, 20, 120, 40, 5, 30, 15, 15, 10, 8, 8, 3, 3, 2, 6}, 20, 110, 40, 0, 0, 15},
+    {"C10", {40, 80, 5, 5, 2, 0, 90, 30, 3, 3, 15, 5, 5, 2, 1, 40, 10, 1, 1, 10, 320, 10, 15, 10, 60, 15, 20, 2, 2, 1, 1, 1, 25}, 30, 120, 20, 0, 0, 5},
+    {"C11", {30, 50, 5, 5, 2, 0, 160, 100, 40, 40, 50, 40, 60, 15, 10, 70, 50, 20, 20, 10, 80, 10, 3, 20, 30, 20, 5, 3, 3, 1, 1, 1, 8}, 30, 120, 20, 1, 0, 5},
+    {"C12", {90, 150, 40, 40, 15, 1, 90, 80, 5, 5, 10, 8, 5, 3, 2, 20, 10, 2, 2, 10, 80, 10, 15, 10, 25, 40, 5, 10, 10, 3, 2, 1, 5}, 20, 120, 30, 0, 0, 10},
+    {"C13", {150, 30, 10, 30, 5, 2, 10, 10, 2, 2, 3, 2, 3, 1, 1, 3, 2, 1, 1, 5, 20, 5, 1, 5, 2, 10, 5, 5, 80, 2, 1, 1, 1}, 12, 60, 90, 1, 0, 20},
+    {"C14", {120, 30, 5, 20, 20, 8, 10, 10, 2, 2, 10, 2, 10, 5, 3, 3, 2, 1, 1, 10, 60, 10, 1, 5, 5, 5, 60, 2, 5, 1, 1, 3, 3}, 12, 70, 30, 1, 0, 5},
+    {"C15", {40, 50, 5, 5, 2, 0, 30, 20, 5, 5, 5, 5, 3, 1, 1, 5, 3, 2, 2, 60, 60, 250, 3, 20, 3, 5, 5, 3, 3, 1, 1, 25, 2}, 20, 100, 20, 1, 0, 5},
+    {"C16", {60, 60, 15, 10, 5, 1, 40, 30, 10, 10, 10, 10, 10, 5, 3, 10, 5, 5, 5, 10, 30, 10, 5, 5, 3, 20, 2, 60, 60, 30, 5, 1, 1}, 15, 90, 30, 0, 0, 60},
+    {"C17", {40, 60, 10, 20, 10, 0, 50, 40, 5, 5, 15, 10, 20, 5, 5, 30, 25, 10, 5, 20, 80, 30, 3, 300, 5, 10, 10, 5, 5, 2, 1, 3, 3}, 20, 110, 20, 0, 1, 5},
+    {"C19", {150, 40, 5, 5, 2, 3, 30, 20, 10, 10, 10, 5, 5, 3, 3, 50, 30, 10, 10, 20, 60, 20, 5, 30, 15, 10, 10, 5, 10, 2, 25, 2, 4}, 15, 100, 40, 1, 0, 10},
 };
 static const int g_num_profiles = (int)(sizeof(g_profiles) / sizeof(g_profiles[0]));
 static const Profile& find_profile(const std::string& n) {
@@ -112,6 +112,11 @@ static Step gen_op(Rng& r, const Profile& P, int client, int nh, const Plan& pla
   s.k = kk[r.uni(14)];
   s.u = r.next();
   s.len = r.bern(0.15) ? 0 : r.range(1, 40);
+  if (s.op == OP_SET_VEC || s.op == OP_MIRROR) {
+    double u = r.u01();
+    if (u < 0.25) s.len = -1;       // same length as the vector has now, other values
+    else if (u < 0.40) s.len = -2;  // the length of the neighbouring vector parameter
+  }
   s.val = g_wild[r.uni(g_num_wild)];
   if (s.op == OP_SET) {
     s.b = r.bern(0.75) ? 0 : 1;  // admissible / wild
